@@ -37,6 +37,10 @@ func (h *vEngH) pid(i int) *PID {
 		return NewPID("other:1", "s/x")
 	case 5:
 		return NewPID("other:1", "s/a") // foreign address, id of a live local actor
+	case 6:
+		return NewPID(h.addr+"/s", "a") // another PID whose String() (address + "/" + id) equals that of pid 0
+	case 7:
+		return NewPID(h.addr[:len(h.addr)-1], h.addr[len(h.addr)-1:]+"s/a") // another PID whose address+id concatenation equals that of pid 0
 	}
 	return nil
 }
@@ -48,7 +52,7 @@ func (h *vEngH) idx(p *PID) string {
 	if p.ID == "verif/es" {
 		return "es" // forwards carry the event stream as sender
 	}
-	for _, i := range []int{0, 1, 2, 3, 5} {
+	for _, i := range []int{0, 1, 2, 3, 5, 6, 7} {
 		q := h.pid(i)
 		if q.Address == p.Address && q.ID == p.ID {
 			return strconv.Itoa(i)
@@ -252,9 +256,9 @@ func TestVerifEngine(t *testing.T) {
 		for j := 0; j < k; j++ {
 			switch c := rr.Intn(20); {
 			case c < 5:
-				ops = append(ops, "sub"+strconv.Itoa(vgen.Pick(rr, []int{0, 1, 2, 3, 5})))
+				ops = append(ops, "sub"+strconv.Itoa(vgen.Pick(rr, []int{0, 1, 2, 3, 5, 6, 7, 0, 1})))
 			case c < 7:
-				ops = append(ops, "uns"+strconv.Itoa(vgen.Pick(rr, []int{0, 1, 2, 3, 5})))
+				ops = append(ops, "uns"+strconv.Itoa(vgen.Pick(rr, []int{0, 1, 2, 3, 5, 6, 7, 0, 1})))
 			case c < 11:
 				ev++
 				ops = append(ops, "ev"+strconv.Itoa(ev))
